@@ -962,10 +962,13 @@ fn gen_sale(rng: &mut Rng, variant: usize) -> SaleCase {
 }
 
 /// drop steps that are not needed to reproduce the same violation key
-fn shrink(c: &SaleCase, key: &str, upto: usize) -> SaleCase {
+fn shrink(c: &SaleCase, key: &str, what: &str, upto: usize) -> SaleCase {
     let mut cur = c.clone();
     cur.steps.truncate(upto + 1);
-    let reproduces = |s: &SaleCase| run_sale(s, None).violations.iter().any(|v| v.0 == key);
+    // same key and same kind of observation (the text up to its first number)
+    let kind = |w: &str| -> String { w.chars().take_while(|ch| !ch.is_ascii_digit()).collect() };
+    let want = kind(what);
+    let reproduces = |s: &SaleCase| run_sale(s, None).violations.iter().any(|v| v.0 == key && kind(&v.1) == want);
     if !reproduces(&cur) {
         return cur;
     }
@@ -1037,10 +1040,19 @@ pub fn run(a: &Args) {
             Case::Create(k) => Case::Create(k.clone()),
         };
         let mut keys_here = BTreeSet::new();
-        for (key, what, idx) in r.violations.iter() {
-            if !keys_here.insert(key.clone()) {
-                continue;
+        // one replay per key and case: the first occurrence, except for D4 where the last one
+        // is taken so that the replay contains the over-charged mint itself when the history has one
+        let mut chosen: Vec<&(String, String, usize)> = vec![];
+        for v in r.violations.iter() {
+            if keys_here.insert(v.0.clone()) {
+                chosen.push(v);
+            } else if v.0 == KEY_D4 {
+                if let Some(slot) = chosen.iter_mut().find(|c| c.0 == v.0) {
+                    *slot = v;
+                }
             }
+        }
+        for (key, what, idx) in chosen.into_iter() {
             let n = seen_keys.entry(key.clone()).or_insert(0);
             *n += 1;
             if *n > 3 {
@@ -1048,7 +1060,7 @@ pub fn run(a: &Args) {
             }
             nviol += 1;
             let small = match &concrete {
-                Case::Sale(s) if a.replay.is_none() => Case::Sale(shrink(s, key, *idx)),
+                Case::Sale(s) if a.replay.is_none() => Case::Sale(shrink(s, key, what, *idx)),
                 other => other.clone(),
             };
             let body = format!(
